@@ -213,6 +213,8 @@ def std_flow(R, mc_module, runs, trace_module, trace_consts, dev_ids, invariants
 def check_C06(tier, replay=None):
     R = Result("C06", tier)
     runs = [("MC_C06_int", {"Slice": '"int"'}), ("MC_C06_str", {"Slice": '"str"'}), ("MC_C06_other", {"Slice": '"other"'})]
+    if tier == "thorough":
+        runs.append(("MC_C06_int_wide", {"Slice": '"int_wide"'}))
     std_flow(R, "MC_C06", runs, "Trace_C06", {}, ("D20", "D21"), ["Agreement", "Emit"])
     R.extra["exhaustive"] = True
     R.extra["anchorings_per_case"] = "up to 5 (mid, max-1, min+1, max, min of the carrier clipped to i32; skipped where a point does not fit)"
@@ -293,7 +295,8 @@ MEMBER_DEVS = ("D08", "D09", "D10", "D11", "D12", "D13", "D14", "D23a", "D23c")
 
 def check_C02(tier, replay=None):
     R = Result("C02", tier)
-    runs = [("MC_C02_" + s, {"Slice": '"%s"' % s}) for s in ("builtins", "positions", "nested", "attrs", "pairs")]
+    slices = ("builtins", "positions", "nested", "attrs", "pairs") + (("positions_all", "triples") if tier == "thorough" else ())
+    runs = [("MC_C02_" + s, {"Slice": '"%s"' % s}) for s in slices]
     std_flow(R, "MC_C02", runs, "Trace_Out", {"P": '"C02"'}, MEMBER_DEVS, ["Agreement", "Emit"])
     # second observation (the property's observe_at): typed struct literals synthesised from Schema!ExpFields must
     # compile against the generated structs (compile/run pipeline, shared and cached)
